@@ -3,13 +3,20 @@
     Every theorem is generic in the configuration that translate/c14_dmx.py regenerates from dmx.py
     (Gen/DmxCodes_gen.v: [gen_cfg], [gen_kv1]); the check discharges the boolean premises for the generated
     instance on every run. *)
-From Coq Require Import NArith ZArith List Bool.
-From SV Require Import Fmt.DmxCodes Fmt.DmxCodesProofs Fmt.DmxBin Fmt.DmxBinProofs Fmt.DmxKv1 Fmt.DmxKv1Proofs Gen.DmxCodes_gen.
+From Coq Require Import NArith ZArith QArith Qabs List Bool.
+From SV Require Import Bin.Struct Fmt.DmxCodes Fmt.DmxCodesProofs Fmt.DmxBin Fmt.DmxBinProofs Fmt.DmxKv1 Fmt.DmxKv1Proofs
+  Fmt.DmxScalar Fmt.DmxScalarProofs Fmt.DmxTyped Fmt.DmxTypedProofs Text.Str Text.Escape Text.Tokenizer Text.TokGen Fmt.DmxKv2 Fmt.DmxKv2Proofs Fmt.DmxKv2Nested Fmt.DmxKv2NestedProofs Fmt.DmxKv2Inst Num.Dec6 Fmt.DmxValText Fmt.DmxValTextProofs Fmt.DmxHeader Fmt.DmxHeaderProofs Gen.DmxCodes_gen.
 Import ListNotations.
 
 (** The premises of the theorems below, for the configuration generated from today's source.  The check proves
     [c14_instance_premises = true] part by part (named instance obligations) on every run. *)
-Definition c14_instance_premises : bool := bin_cfg_ok gen_cfg && kv1_cfg_ok gen_kv1.
+Definition c14_instance_premises : bool :=
+  bin_cfg_ok gen_cfg && kv1_cfg_ok gen_kv1 && scalar_cfg_ok gen_scalar && sizes_match_formats gen_scalar gen_cfg &&
+  rtable_ok gen_ref_scalar && rtable_ok gen_ref_array &&
+  kv2_tables_ok gen_tables && kv2_opts_ok gen_kv2_opts && vtnames_ok gen_tables gen_fold gen_vtnames &&
+  float_text_cfg_ok gen_float_fmt && vec_text_components_ok gen_vec_text_written gen_vec_text_read &&
+  color_text_ok gen_color_text_written gen_color_text_read &&
+  hdr_bin_ok gen_hdr && hdr_kv2_ok gen_hdr && hdr_modes_ok gen_hdr.
 
 (** The attribute type byte: encode then decode gives back the value type and the scalar/array flag, for all 14
     types and both shapes. *)
@@ -72,3 +79,256 @@ Proof. exact kv1_nested_root_is_flattened. Qed.
 
 Theorem kv1_bridge_premises_satisfiable : kv1_cfg_ok sample_cfg = true /\ fold_ok (fun s => s) sample_cfg.
 Proof. exact kv1_premises_satisfiable. Qed.
+
+(** * Fixed-width value codecs (TYPE_CONVERT[t, BINARY] / TYPE_CONVERT[BINARY, t]) *)
+
+(** TIME: for binary64 division and multiplication [fdiv]/[fmul] that meet the standard model of rounding at the
+    operands used (relative error at most 2^-53 for [k / S] and [(k / S) * S]), every 32-bit tick count [k] survives
+    [round((k / S) * S)]: a tick-exact time is written as exactly its tick count, whatever the positive scale [S]. *)
+Theorem time_roundtrip : forall (fmul fdiv : Q -> Q -> Q) (S : Z), (0 < S)%Z ->
+  std_model_on_ticks fmul fdiv S ->
+  forall k, int32_ok k = true -> q_round_he (fmul (fdiv (inject_Z k) (inject_Z S)) (inject_Z S)) = k.
+Proof. exact time_ticks_exact. Qed.
+
+(** The hypothesis is satisfiable (exact arithmetic), and the executable binary64 rounding [rn64] meets it and the
+    conclusion on a computed grid of 2069 tick counts. *)
+Theorem time_roundtrip_premise_satisfiable :
+  std_model_on_ticks Qmult Qdiv 10000 /\ (forallb std_model_check tick_grid = true).
+Proof. split; [exact std_model_exact|exact std_model_rn64_grid]. Qed.
+
+(** The executable model of binary64 round-to-nearest-even, [rn64] (compared with CPython's float [*] and [/] on every
+    run), meets the standard model at every rational: |rn64 x - x| <= 2^-53 |x|. *)
+Theorem binary64_rounding_error : forall x : Q, (Qabs (rn64 x - x) <= u53 * Qabs x)%Q.
+Proof. exact rn64_error. Qed.
+
+(** Hence TIME needs no hypothesis about floating point inside the model: with [fmul64] / [fdiv64] (= [rn64] of the exact
+    product / quotient) every 32-bit tick count survives [round((k / S) * S)], for every positive scale [S]. *)
+Theorem time_roundtrip_binary64 : forall S : Z, (0 < S)%Z -> forall k, int32_ok k = true ->
+  q_round_he (fmul64 (fdiv64 (inject_Z k) (inject_Z S)) (inject_Z S)) = k.
+Proof. exact time_ticks_exact_rn64. Qed.
+
+(** [int()] instead of [round()] is refuted by a computed witness: 3 / 10000.0 is written as 2 ticks. *)
+Theorem time_truncation_loses_a_tick :
+  q_round RTrunc (fmul64 (fdiv64 3 10000) 10000) = 2%Z /\ q_round RNearestEven (fmul64 (fdiv64 3 10000) 10000) = 3%Z.
+Proof. exact time_truncation_refuted. Qed.
+
+(** Every fixed-width value representable in its wire type (int32, binary32 patterns, booleans, tick-exact times,
+    colour bytes, vectors, angles in [0, 360), quaternions, the 3x3 part of a matrix) is packed by the generated
+    struct format into exactly [calcsize] bytes and unpacked to the same value — for every configuration meeting
+    the named conditions, with CPython's struct as modelled in Bin/Struct.v. *)
+Theorem scalar_codec_roundtrip :
+  forall (fmul fdiv : Q -> Q -> Q) (anorm : N -> N) (cfg : scalarcfg),
+    scalar_cfg_ok cfg = true -> std_model_on_ticks fmul fdiv (sc_time_div cfg) ->
+    (forall b, (b < ANGLE_360)%N -> anorm b = b) ->
+    forall t v, sval_rep fdiv cfg t v ->
+    exists bs, encode_sval fmul cfg t v = Some bs /\ length bs = calcsize (wire_kinds t) /\
+               decode_sval fdiv anorm cfg t bs = Some v.
+Proof. exact scalar_codec_roundtrip_gen. Qed.
+
+(** The same with binary64 arithmetic as modelled by [rn64]: only the FrozenAngle normalisation stays a hypothesis. *)
+Theorem scalar_codec_roundtrip_binary64 :
+  forall (anorm : N -> N) (cfg : scalarcfg),
+    scalar_cfg_ok cfg = true -> (forall b, (b < ANGLE_360)%N -> anorm b = b) ->
+    forall t v, sval_rep fdiv64 cfg t v ->
+    exists bs, encode_sval fmul64 cfg t v = Some bs /\ length bs = calcsize (wire_kinds t) /\
+               decode_sval fdiv64 anorm cfg t bs = Some v.
+Proof. exact scalar_codec_roundtrip_rn64. Qed.
+
+Theorem scalar_codec_premises_satisfiable :
+  (scalar_cfg_ok pinned_scalar = true) /\ (sizes_match_formats pinned_scalar pinned_cfg = true).
+Proof. exact scalar_cfg_example. Qed.
+
+(** The conditions are necessary: a truncating TIME codec and a matrix reader that ignores the padding column
+    fail their named condition and lose a representable value. *)
+Theorem scalar_truncating_cfg_refuted :
+  (time_rounds_to_nearest trunc_scalar = false) /\
+  (let t := fdiv64 3 10000 in
+   match encode_sval fmul64 trunc_scalar TTime (SvTime t) with
+   | Some bs => decode_sval fdiv64 (fun b => b) trunc_scalar TTime bs
+   | None => None
+   end = Some (SvTime (fdiv64 2 10000))).
+Proof. exact truncating_cfg_refuted. Qed.
+
+Theorem scalar_matrix_unpadded_read_refuted :
+  (mat_cells_read_where_written bad_mat_scalar = false) /\
+  mat_unpack (sc_mat_unpack bad_mat_scalar) (mat_pack (sc_mat_pack bad_mat_scalar) [1;2;3;4;5;6;7;8;9]%N) <> [1;2;3;4;5;6;7;8;9]%N.
+Proof. exact matrix_unpadded_read_refuted. Qed.
+
+(** * Binary DMX with typed values *)
+
+(** Packing every fixed-width value of a typed document ([lower_doc]: TYPE_CONVERT[t, BINARY] per item, as
+    [attr.iter_binary()] does) and unpacking ([lift_doc]: TYPE_CONVERT[BINARY, t]) gives the document back, and every
+    packed item has exactly the size the SIZES table promises the reader ([sizes_match_formats]). *)
+Theorem typed_values_roundtrip :
+  forall (fmul fdiv : Q -> Q -> Q) (anorm : N -> N) (scfg : scalarcfg) (cfg : dmxcfg),
+    scalar_cfg_ok scfg = true -> sizes_match_formats scfg cfg = true ->
+    std_model_on_ticks fmul fdiv (sc_time_div scfg) -> (forall b, (b < ANGLE_360)%N -> anorm b = b) ->
+    forall td, tdoc_rep fdiv scfg td ->
+    exists d, lower_doc fmul scfg td = Some d /\ lift_doc fdiv anorm scfg d = Some td /\ doc_sized cfg d.
+Proof. exact typed_lift_lower. Qed.
+
+(** The binary round trip with values instead of wire bytes: export the packed document in any version that can
+    express it, parse, unpack — the typed document comes back (integers, binary32 patterns, booleans, tick-exact
+    times, colours, vectors, angles in [0, 360), quaternions, matrices; strings, blobs and references as before). *)
+Theorem dmx_bin_typed_roundtrip :
+  forall (fmul fdiv : Q -> Q -> Q) (anorm : N -> N) (scfg : scalarcfg) (cfg : dmxcfg),
+    scalar_cfg_ok scfg = true -> sizes_match_formats scfg cfg = true ->
+    std_model_on_ticks fmul fdiv (sc_time_div scfg) -> (forall b, (b < ANGLE_360)%N -> anorm b = b) ->
+    forall (cenc : enc -> DmxBin.str -> bytes) (cdec : enc -> bytes -> option DmxBin.str) (v : N) (td : tdoc) (d : doc),
+    bin_cfg_ok cfg = true -> tdoc_rep fdiv scfg td -> lower_doc fmul scfg td = Some d -> expressible cenc cdec cfg v d ->
+    match parse_bin cdec cfg v (export_bin cenc cfg v d) with Some d' => lift_doc fdiv anorm scfg d' | None => None end = Some td.
+Proof. exact dmx_bin_typed_roundtrip_gen. Qed.
+
+Theorem typed_premises_satisfiable :
+  tdoc_rep fdiv64 pinned_scalar ex_tdoc /\
+  match lower_doc fmul64 pinned_scalar ex_tdoc with
+  | Some [e] => match nth 3 (eattrs e) {| aname := []; adata := VBin (Array []) |} with
+                | {| adata := VFix TMatrix (Scalar b) |} => length b = 64%nat
+                | _ => False
+                end
+  | _ => False
+  end.
+Proof. exact typed_example. Qed.
+
+(** * KeyValues2 *)
+
+(** How [_export_kv2] writes an element value: a decision table (if / elif / else chain over is_null, is_stub,
+    uuid-in-roots) that meets the named condition decides exactly as the format needs — NULL as the empty
+    reference, stubs and top-level elements by UUID reference, the rest inline — and two such tables agree. *)
+Theorem kv2_reference_decision : forall t, rtable_ok t = true ->
+  forall is_null is_stub in_roots, decide t is_null is_stub in_roots = Some (ref_spec is_null is_stub in_roots).
+Proof. exact rtable_ok_sound. Qed.
+Theorem kv2_reference_sites_agree : forall a b, rtables_agree a b = true ->
+  forall is_null is_stub in_roots, decide a is_null is_stub in_roots = decide b is_null is_stub in_roots.
+Proof. exact rtables_agree_sound. Qed.
+(** Dropping [or child.is_stub] at one site is refuted: a non-root stub would be written inline. *)
+Theorem kv2_stub_written_inline_refuted :
+  (rtable_ok no_stub_rtable = false) /\ (rtables_agree pinned_rtable no_stub_rtable = false) /\
+  decide no_stub_rtable false true false = Some AInline.
+Proof. exact stub_inline_refuted. Qed.
+
+(** The tokenizer (the real [_get_token] model of C02) run over the text the flat-layout writer emits gives exactly
+    the writer's tokens, in order, then EOF: quoted escaped names and values come back as the strings (C02's
+    [quoted_embedding]), [CR LF] as one NEWLINE, braces / brackets / commas as themselves, leading tabs vanish. *)
+Theorem kv2_tokens_roundtrip : forall (T : tables) (o : opts) (fold : str -> str) (vtnames : list str),
+  kv2_tables_ok T = true -> kv2_opts_ok o = true -> vtnames_ok T fold vtnames = true ->
+  forall d, doc_ok T vtnames d = true -> tokenize T o (render_doc T d) = Some (toks_of (lex_doc d)).
+Proof. exact kv2_tokens_roundtrip_gen. Qed.
+
+(** KeyValues2, flat layout, at the level of the text: parsing the exported text of any document (elements with
+    type, id, name; attributes with any name, a type keyword, scalar or array shape, value strings in order, NULL and
+    UUID references, empty arrays) gives back the document. *)
+Theorem kv2_flat_roundtrip : forall (T : tables) (o : opts) (fold : str -> str) (vtnames : list str),
+  kv2_tables_ok T = true -> kv2_opts_ok o = true -> vtnames_ok T fold vtnames = true ->
+  forall d, doc_ok T vtnames d = true -> parse_text T o fold vtnames (render_doc T d) = Some d.
+Proof. exact kv2_flat_roundtrip_gen. Qed.
+
+(** The fix-up pass: replacing element references by the UUID text of their target and resolving UUID texts against
+    the ids of the parsed elements (unknown ids stay stubs) are inverse on every graph with pairwise distinct ids —
+    sharing, self references and cycles, NULL and stub references are kept as such. *)
+Theorem kv2_link_flatten : forall g, graph_ok g = true -> link (flatten g) = Some g.
+Proof. exact link_flatten. Qed.
+
+(** Text and graph together, flat layout: export, tokenize, parse, link gives back the graph. *)
+Theorem kv2_flat_graph_roundtrip : forall (T : tables) (o : opts) (fold : str -> str) (vtnames : list str),
+  kv2_tables_ok T = true -> kv2_opts_ok o = true -> vtnames_ok T fold vtnames = true ->
+  forall g, graph_ok g = true -> doc_ok T vtnames (flatten g) = true ->
+  match parse_text T o fold vtnames (render_doc T (flatten g)) with Some d => link d | None => None end = Some g.
+Proof. exact kv2_flat_graph_roundtrip_gen. Qed.
+
+Theorem kv2_graph_premises_satisfiable :
+  graph_ok ex_gdoc && doc_ok pinned_tables pinned_vtnames (flatten ex_gdoc) = true.
+Proof. exact kv2_graph_example. Qed.
+
+(** KeyValues2, nested layout (the default), at the level of the text: elements used once are written as inline
+    blocks inside the attribute or element array that holds them, to any depth.  Parsing the exported text with the
+    full recursion of [_parse_kv2_element] gives back the tree of blocks, provided no *inline* element has an
+    attribute type keyword (any casing, with or without [_array], or [elementid]) as its type name: [ndoc_ok] asks
+    [type_is_keyword ty = false] of inline elements only — the writer puts the others at the top level. *)
+Theorem kv2_nested_roundtrip : forall (T : tables) (o : opts) (fold : str -> str) (vtnames : list str),
+  kv2_tables_ok T = true -> kv2_opts_ok o = true -> vtnames_ok T fold vtnames = true ->
+  forall d, ndoc_ok T fold vtnames d = true -> parsen_text T o fold vtnames (rendern_doc T d) = Some d.
+Proof. exact kv2_nested_roundtrip_gen. Qed.
+
+Theorem kv2_nested_premises_satisfiable : ndoc_ok pinned_tables (fun s => s) pinned_vtnames ex_ndoc = true.
+Proof. exact kv2_nested_example. Qed.
+
+(** The carve-out is real (the repaired defect): an inline element of type "element" inside an element array is read
+    as a UUID reference, one of type "int" in a scalar attribute as a typed attribute; neither text parses. *)
+Theorem kv2_inline_keyword_type_refuted :
+  let bad1 := [NElem [84] None [] [NAttr [97] s_element true [NInline (NElem s_element None [] [])]]]%N in
+  let bad2 := [NElem [84] None [] [NAttr [97] s_element false [NInline (NElem [105;110;116] None [] [])]]]%N in
+  (ndoc_ok pinned_tables (fun s => s) pinned_vtnames bad1 = false) /\
+  (parsen_text pinned_tables pinned_kv2_opts (fun s => s) pinned_vtnames (rendern_doc pinned_tables bad1) = None) /\
+  (ndoc_ok pinned_tables (fun s => s) pinned_vtnames bad2 = false) /\
+  (parsen_text pinned_tables pinned_kv2_opts (fun s => s) pinned_vtnames (rendern_doc pinned_tables bad2) = None).
+Proof. exact kv2_inline_keyword_refuted. Qed.
+
+Theorem kv2_premises_satisfiable :
+  kv2_tables_ok pinned_tables && kv2_opts_ok pinned_kv2_opts && vtnames_ok pinned_tables (fun s => s) pinned_vtnames &&
+  doc_ok pinned_tables pinned_vtnames ex_kdoc = true.
+Proof. exact kv2_premises_example. Qed.
+(** A name written without escape_text that contains a quote does not re-tokenise. *)
+Theorem kv2_unescaped_name_refuted :
+  tokenize pinned_tables pinned_kv2_opts (render_lex pinned_tables [([], LRaw [97; 34; 98]); ([], LNl)])
+  <> Some (toks_of [([], LRaw [97; 34; 98]); ([], LNl)]).
+Proof. exact kv2_raw_name_refuted. Qed.
+
+(** * The value strings of KeyValues2 *)
+
+(** FLOAT and every component of VEC2 / VEC3 / VEC4 / ANGLE / QUATERNION are written by [_fmt_float]: the decimal the
+    text denotes is the binary64 value rounded half-even at six places (C05's exact model of ['%.6f'], Num/Dec6.v),
+    i.e. within 5e-7 of the value — "to 6 decimals in text".  [num_den x] is 10^6 |x| as an exact fraction. *)
+Theorem kv2_float_text_six_decimals : forall (c : fmt_cfg) (x : dyadic),
+  scaled_value (fmt_parts c x) = scaled6 x /\
+  (2 * Z.abs (Z.of_N (scaled6 x) * Z.of_N (snd (num_den x)) - Z.of_N (fst (num_den x))) <= Z.of_N (snd (num_den x)))%Z.
+Proof. exact float_text_value_gen. Qed.
+
+(** A vector text — the component texts joined by single spaces — splits ([str.split()], any whitespace set that
+    contains the space and no character of a decimal) into exactly the component texts, in order and number. *)
+Theorem kv2_vector_text_splits : forall (is_ws : N -> bool) (c : fmt_cfg) (xs : list dyadic),
+  is_ws SPC = true -> (forall ch, dec_char ch = true -> is_ws ch = false) ->
+  parse_parts is_ws (length xs) (vec_text c xs) = Some (map (format6 c) xs).
+Proof. exact vec_text_splits_gen. Qed.
+
+(** INTEGER: [int(str(n)) = n] for every integer; COLOR: the four components come back. *)
+Theorem kv2_int_text_roundtrip : forall z : Z, parse_int (int_text z) = Some z.
+Proof. exact int_text_roundtrip_gen. Qed.
+Theorem kv2_color_text_roundtrip : forall (is_ws : N -> bool) (r g b a : N),
+  is_ws SPC = true -> (forall ch, dec_char ch = true -> is_ws ch = false) ->
+  parse_color is_ws (color_text r g b a) = Some (Z.of_N r, Z.of_N g, Z.of_N b, Z.of_N a).
+Proof. exact color_text_roundtrip_gen. Qed.
+
+(** BINARY: upper-case hex pairs separated by single spaces parse back ([bytes.fromhex] skips whitespace between bytes). *)
+Theorem kv2_hex_text_roundtrip : forall (is_ws : N -> bool),
+  is_ws SPC = true -> (forall c, hex_char c = true -> is_ws c = false) ->
+  forall bs, Forall (fun b => (b < 256)%N) bs -> parse_hex is_ws (hex_text bs) = Some bs.
+Proof. exact hex_text_roundtrip_gen. Qed.
+
+Theorem kv2_value_text_examples :
+  (float_text dmx_float_cfg {| dneg := false; dm := 1451; de := (-1)%Z |} = [55; 50; 53; 46; 53]%N) /\
+  (float_text dmx_float_cfg {| dneg := true; dm := 0; de := 0%Z |} = [45; 48]%N) /\
+  (float_text dmx_float_cfg {| dneg := false; dm := 1; de := (-30)%Z |} = [48]%N) /\
+  (float_text_cfg_ok dmx_float_cfg = true).
+Proof. exact float_text_examples. Qed.
+(** without the separator the components cannot be told apart *)
+Theorem kv2_vector_text_needs_separator :
+  let xs := [{| dneg := false; dm := 1; de := 0%Z |}; {| dneg := false; dm := 2; de := 0%Z |}] in
+  parse_parts (fun c => (c =? 32)%N) 2 (concat (map (format6 dmx_float_cfg) xs)) = None.
+Proof. exact vec_text_needs_separator. Qed.
+
+(** * The three unicode modes *)
+
+(** In every mode ('ascii', 'format' = marked with [unicode_] in the header, 'silent' = UTF-8 without marker, to be read
+    with [unicode=True]) [Element.parse] decodes strings with the codec the exporter encoded them with, for the binary
+    and the KeyValues2 form — for every configuration of marker / codec choices meeting the two named conditions.
+    This is what instantiates the codec parameters [cenc] / [cdec] of [dmx_bin_roundtrip] consistently. *)
+Theorem unicode_mode_codec_agreement : forall c, hdr_bin_ok c = true -> hdr_kv2_ok c = true ->
+  forall m, reader_bin_utf8 c m = hb_utf8 c m /\ reader_kv2_utf8 c m = hk_utf8 c m.
+Proof. exact codec_agreement_gen. Qed.
+Theorem unicode_mode_premises_satisfiable : hdr_bin_ok pinned_hdr && hdr_kv2_ok pinned_hdr && hdr_modes_ok pinned_hdr = true.
+Proof. exact hdr_example. Qed.
+(** A writer that forgets the marker in 'format' mode is refuted: the reader would decode UTF-8 data as ASCII. *)
+Theorem unicode_marker_forgotten_refuted :
+  (hdr_bin_ok unmarked_hdr = false) /\ (reader_bin_utf8 unmarked_hdr UFormat = false) /\ (hb_utf8 unmarked_hdr UFormat = true).
+Proof. exact hdr_unmarked_refuted. Qed.
